@@ -15,7 +15,7 @@ Import ListNotations.
 Inductive fn :=
   | FCross | FDot | FVDot | FNorm | FVNorm | FDistance | FNormalized | FDet2 | FDet3 | FCotan | FAngle3
   | FSAngle2 | FSAngle3 | FAngle2D | FAngle3D | FCircum | FFaceBasis | FLine2 | FPlane | FTriArea | FTriArea2D
-  | FRot2D | FRotAxis | FSign0 | FSign | FPrincipal | FAngleDiff | FRoots.
+  | FRot2D | FRotAxis | FRot2D2 | FRotAxis2 | FSign0 | FSign | FPrincipal | FAngleDiff | FRoots.
 
 Inductive op :=
   | OArr (s : Z) (v : list Q)
@@ -50,6 +50,7 @@ Inductive robs :=
   | RAng (c s : float)                       (* cos and sin of the returned angle *)
   | RRoots (rs : list (float * float * float))   (* re, im, phase of every returned root *)
   | RExc (e : exn)
+  | RSkip          (* ill-conditioned input (collinear points): any answer of the float pipeline is accepted here *)
   | ROther.
 
 Record obs := mkobs {
@@ -116,6 +117,7 @@ Definition agree (m : mres) (r : robs) : bool :=
                   fagree (PrimFloat.add (PrimFloat.mul re re) (PrimFloat.mul im im)) PrimFloat.one &&
                   PrimFloat.leb (PrimFloat.abs (m_angle_diff float Fops a ph)) tol6) l rs
   | MExc a, RExc b => exn_eqb a b
+  | _, RSkip => true
   | _, _ => false
   end.
 
@@ -183,6 +185,18 @@ Definition run_fn (f : fn) (a : list (list Q)) (k : nkind) (sc : list Q) (fl : l
   | FTriArea2D => MQ (g_triangle_area_2D Q QO (A 0%nat) (A 1%nat) (A 2%nat))
   | FRot2D => MVF (rot_rotate_2d float FO (F 0%nat) (q2f (S 0%nat)) (L 0%nat) (L 1%nat))
   | FRotAxis => of_res MVF (rot_rotate_around_axis float FO (F 0%nat) (F 1%nat) (q2f (S 0%nat)) (L 0%nat) (L 1%nat))
+  | FRot2D2 =>
+      (* sc = [a; b], fl = [cos a; sin a; cos b; sin b; cos (a+b); sin (a+b)] *)
+      let r1 := rot_rotate_2d float FO (rot_rotate_2d float FO (F 0%nat) (q2f (S 0%nat)) (L 0%nat) (L 1%nat))
+                              (q2f (S 1%nat)) (L 2%nat) (L 3%nat) in
+      let r2 := rot_rotate_2d float FO (F 0%nat) (q2f (S 0%nat + S 1%nat)) (L 4%nat) (L 5%nat) in
+      MVsF [r1; r2]
+  | FRotAxis2 =>
+      of_res (fun x => x)
+        (bind (rot_rotate_around_axis float FO (F 0%nat) (F 1%nat) (q2f (S 0%nat)) (L 0%nat) (L 1%nat)) (fun y =>
+         bind (rot_rotate_around_axis float FO y (F 1%nat) (q2f (S 1%nat)) (L 2%nat) (L 3%nat)) (fun r1 =>
+         bind (rot_rotate_around_axis float FO (F 0%nat) (F 1%nat) (q2f (S 0%nat + S 1%nat)) (L 4%nat) (L 5%nat)) (fun r2 =>
+         Ret (MVsF [r1; r2])))))
   | FSign0 => MQ (g_sign0 Q QO (S 0%nat))
   | FSign => MQ (g_sign Q QO (S 0%nat))
   | FPrincipal => MPer (m_principal_angle float FO (q2f (S 0%nat)))
@@ -203,9 +217,10 @@ Definition step (st : state) (o : op) : mres * state * list (Z * (list Q * list 
     | Ret bx => (MBoxQ bx, mkst (arrs st) ((nb, bx) :: boxes st), [])
     | Raise e => (MExc e, st, [])
     end in
-  let padded b r :=
+  let padded b old r :=
     match r with
-    | Ret bx => (MNone, mkst (arrs st) ((b, bx) :: boxes st), [(b, bx)])
+    | Ret bx => (MNone, mkst (arrs st) ((b, bx) :: boxes st),
+                 if vq_eqb (fst old) (fst bx) && vq_eqb (snd old) (snd bx) then [] else [(b, bx)])
     | Raise e => (MExc e, st, [])
     end in
   match o with
@@ -221,8 +236,8 @@ Definition step (st : state) (o : op) : mres * state * list (Z * (list Q * list 
       | Some pts => newbox nb (aabb_of_points Q QO pts pad)
       | None => keep MBad
       end
-  | OPadS b p => match B b with Some bx => padded b (aabb_pad_scalar Q QO bx p) | None => keep MBad end
-  | OPadV b s => match B b, A s with Some bx, Some v => padded b (aabb_pad_vec Q QO bx v) | _, _ => keep MBad end
+  | OPadS b p => match B b with Some bx => padded b bx (aabb_pad_scalar Q QO bx p) | None => keep MBad end
+  | OPadV b s => match B b, A s with Some bx, Some v => padded b bx (aabb_pad_vec Q QO bx v) | _, _ => keep MBad end
   | OContains b s => match B b, A s with Some bx, Some v => keep (of_res MB (aabb_contains_point Q QO bx v)) | _, _ => keep MBad end
   | OProject b s => match B b, A s with Some bx, Some v => keep (of_res MVQ (aabb_project Q QO bx v)) | _, _ => keep MBad end
   | ODistance b s k =>
@@ -262,3 +277,18 @@ Fixpoint run (st : state) (p : list (op * obs)) : bool :=
   end.
 
 Definition check_prog (p : list (op * obs)) : bool := run st0 p.
+
+(* diagnostics: per-call agreement flags (used by the harness to name the disagreeing call) *)
+Fixpoint run_flags (st : state) (p : list (op * obs)) : list bool :=
+  match p with
+  | [] => []
+  | (o, w) :: t =>
+      let '(m, st', chg) := step st o in
+      (agree m (o_r w) && o_err_same w && Z.eqb (o_arrchg w) 0 && Z.eqb (o_alias w) 0
+       && boxchg_eqb chg (o_boxchg w)) :: run_flags st' t
+  end.
+Fixpoint run_answers (st : state) (p : list (op * obs)) : list mres :=
+  match p with
+  | [] => []
+  | (o, w) :: t => let '(m, st', chg) := step st o in m :: run_answers st' t
+  end.
